@@ -49,8 +49,11 @@ def plan(tier, seed):
             if tier == "quick" and grid == "nonuniform" and (P not in (None, 5.0) or tmax in (300.0, 420.0)):
                 continue
             g.append({"kind": "qha", "eos": e, "law": law, "P": P, "tmax": tmax, "el": elshape, "grid": grid})
-        for vo, P_, el_ in itertools.product(("ascending", "descending", "shuffled"), (None, 5.0), ("eos", "V", "TV")):
+        for vo, P_, el_ in itertools.product(("ascending", "descending", "shuffled"), (None, 5.0), ("eos", "V", "TV", "TV-eos")):
             g.append({"kind": "qha", "eos": e, "law": "linear", "P": P_, "tmax": None, "el": el_, "grid": "uniform", "vorder": vo})
+        for P_, el_, tm_, gr_ in itertools.product((None, 5.0), ("V", "TV"), (None, 304.0), ("uniform", "nonuniform")):
+            g.append({"kind": "qha", "eos": e, "law": "debye", "P": P_, "tmax": tm_, "el": el_, "grid": gr_, "verbose": True})
+            g.append({"kind": "qha", "eos": e, "law": "debye", "P": P_, "tmax": tm_, "el": el_, "grid": gr_, "writers": True})
     for k in range(0, len(g), 12):
         groups.append(g[k:k + 12])
     meta = {"alphabet": {"eos": EOSES, "E0": E0S, "B0": B0S, "B0'": BPS, "V0": V0S, "fit_grids": 18, "qha_cases": len(g)},
@@ -191,6 +194,12 @@ def run_qha(case):
         el = f(V, *PEL) - Pev * V
         ph = (Ftot - el[None, :]) * EvTokJmol
         el_in = el.copy()
+    elif case["el"] == "TV-eos":
+        # per-temperature electronic energies, each row exactly the equation of state with its own parameters
+        PT = np.array([[PEL[0] - 1e-5 * t, PEL[1] * (1 - 1e-4 * t), PEL[2] + 1e-4 * t, PEL[3] * (1 + 2e-5 * t)] for t in T])
+        el = np.array([f(V, *PT[i]) - Pev * V for i in range(len(T))])
+        ph = (Ftot - el) * EvTokJmol
+        el_in = el.copy()
     elif case["el"] == "V":
         el = 0.02 * (V - 40.0) ** 2 - 4.0
         ph = (Ftot - el[None, :]) * EvTokJmol
@@ -217,7 +226,12 @@ def run_qha(case):
     ph_in, cv_in, S_in = (np.ascontiguousarray(a[:, perm]) for a in (ph, cv, S))
     el_before = el_in.copy()
     try:
-        qha = PhonopyQHA(volumes=Vin, electronic_energies=el_in, temperatures=T, free_energy=ph_in, cv=cv_in, entropy=S_in, pressure=P, eos=case["eos"], t_max=case["tmax"])
+        import contextlib as _cl
+        import io as _io
+
+        with _cl.redirect_stdout(_io.StringIO()):
+            qha = PhonopyQHA(volumes=Vin, electronic_energies=el_in, temperatures=T, free_energy=ph_in, cv=cv_in, entropy=S_in, pressure=P, eos=case["eos"], t_max=case["tmax"],
+                             verbose=bool(case.get("verbose")))
     except Exception as e:
         return fail("raised", "%s: %s" % (type(e).__name__, str(e)[:150]))
     if not np.array_equal(el_in, el_before):
@@ -255,6 +269,17 @@ def run_qha(case):
         wantc[i] = -2 * a[0] * T[i]
     if len(cp) != n or np.abs(cp - wantc).max() > 1e-6 * max(np.abs(wantc).max(), 1.0) + 1e-3:
         return fail("heat-capacity-P", "C_P differs from -T d2G/dT2 by the documented three-point fit: %s vs %s" % (cp[:4].tolist(), wantc[:4].tolist()))
+    if case["el"] == "TV-eos":
+        try:
+            e0_, b_, bp_, v0_ = (np.asarray(x, float) for x in qha.get_bulk_modulus_parameters())
+        except Exception as ex:
+            return fail("static-fit-raised", "%s: %s" % (type(ex).__name__, str(ex)[:100]))
+        if np.shape(b_) != (len(T),):
+            return fail("static-fit", "per-temperature static fit returns parameters of shape %s for %d temperatures" % (np.shape(b_), len(T)))
+        dev = max(np.abs(e0_ - PT[:, 0]).max(), np.abs(b_ / PT[:, 1] - 1).max(), 0.1 * np.abs(bp_ / PT[:, 2] - 1).max(), np.abs(v0_ / PT[:, 3] - 1).max())
+        if dev > 1e-5 or np.abs(np.asarray(qha.bulk_modulus, float) / PT[:, 1] - 1).max() > 1e-5:
+            return fail("static-fit", "per-temperature static fit: B0(T) reported %s..., B0'(T) %s...; the data were made with B0 %s..., B0' %s..." % (
+                np.round(np.asarray(qha.bulk_modulus, float)[:2], 5).tolist(), np.round(bp_[:2], 5).tolist(), PT[:2, 1].round(5).tolist(), PT[:2, 2].round(5).tolist()))
     if case["el"] == "eos":
         # the static fit (electronic energies alone, + PV) uses the same equation of state as the run
         try:
@@ -269,6 +294,32 @@ def run_qha(case):
     wantF = Ftot[:n] + Pev * V[None, :]
     if hv.shape != wantF.shape or np.abs(hv - wantF).max() > 1e-9:
         return fail("helmholtz-volume", "F(T,V) (+PV) differs from phonon + electronic (+PV) input by %.3g" % (np.abs(hv - wantF).max() if hv.shape == wantF.shape else -1))
+    if case.get("writers"):
+        # every writer is called (in a scratch directory); what the object answers afterwards is what it answered before
+        import os
+        import tempfile
+
+        before = [np.array(qha.volume_temperature), np.array(qha.gibbs_temperature), np.array(qha.bulk_modulus_temperature), np.array(qha.thermal_expansion)]
+        cwd = os.getcwd()
+        with tempfile.TemporaryDirectory(prefix="c20_") as td:
+            os.chdir(td)
+            try:
+                for nm in ("write_helmholtz_volume", "write_helmholtz_volume_fitted", "write_volume_temperature", "write_thermal_expansion", "write_gibbs_temperature",
+                           "write_bulk_modulus_temperature", "write_heat_capacity_P_numerical", "write_heat_capacity_P_polyfit", "write_gruneisen_temperature"):
+                    try:
+                        if nm == "write_helmholtz_volume_fitted":
+                            getattr(qha, nm)(3)
+                            getattr(qha, nm)(1)
+                        else:
+                            getattr(qha, nm)()
+                    except Exception as ex:
+                        return fail("writer-raised", "%s: %s: %s" % (nm, type(ex).__name__, str(ex)[:80]))
+                    after = [np.array(qha.volume_temperature), np.array(qha.gibbs_temperature), np.array(qha.bulk_modulus_temperature), np.array(qha.thermal_expansion)]
+                    for a_, b_ in zip(before, after):
+                        if a_.shape != b_.shape or np.abs(a_ - b_).max() > 0:
+                            return fail("changed-by-writer", "after %s() the object reports other values (max change %.3g)" % (nm, np.abs(a_ - b_).max() if a_.shape == b_.shape else -1))
+            finally:
+                os.chdir(cwd)
     return dict(ok=True, nontrivial=nontriv, transitions=1, outcome="ok:qha")
 
 
